@@ -161,6 +161,14 @@ type Scn struct {
 	done bool
 }
 
+// SendDelayMs is the pacing the run is given: DelayMs, with a negative value standing for "no delay between probes".
+func (sc *Scn) SendDelayMs() int {
+	if sc.DelayMs < 0 {
+		return 0
+	}
+	return sc.DelayMs
+}
+
 func (sc *Scn) Defaults() {
 	if sc.TimeoutMs == 0 {
 		sc.TimeoutMs = 300
@@ -474,7 +482,8 @@ func (s *Script) OnProbe(n *simnet.Net, sink *simnet.Sink, p *refcodec.Packet, r
 			}
 			for c := 0; c <= hs.Copies; c++ {
 				d := int64(delay)*1000 + int64(c)*1_000_000
-				out = append(out, simnet.Reply{DelayNs: d, Raw: b, Meta: simnet.Meta{ToTTL: answers, Genuine: genuine, Tag: tag, From: from, Flow: sink.ID}})
+				out = append(out, simnet.Reply{DelayNs: d, Raw: b, Meta: simnet.Meta{ToTTL: answers, Genuine: genuine, Tag: tag, From: from, Flow: sink.ID,
+					Dest: genuine && !conditional && answers >= sc.First && answers <= sc.Last && ProvesArrival(vi.Kind, form, from == target)}})
 				if genuine {
 					s.Sent[sink.ID] = append(s.Sent[sink.ID], Delivered{TTL: answers, From: from, AtNs: vsched.Now() + d, Genuine: true, Form: form, Tag: tag, Conditional: conditional})
 				}
@@ -731,7 +740,7 @@ func Listen(n *simnet.Net, sc *Scn) (uint16, error) {
 func RunVariant(ctx context.Context, sc *Scn, port uint16) (*result.TracerouteRun, error) {
 	vi := Info(sc.Variant)
 	timeout := time.Duration(sc.TimeoutMs) * time.Millisecond
-	delay := time.Duration(sc.DelayMs) * time.Millisecond
+	delay := time.Duration(sc.SendDelayMs()) * time.Millisecond
 	pp := common.TracerouteParallelParams{TracerouteParams: common.TracerouteParams{
 		MinTTL: uint8(sc.First), MaxTTL: uint8(sc.Last), TracerouteTimeout: timeout, PollFrequency: 100 * time.Millisecond, SendDelay: delay}}
 	switch vi.Kind {
